@@ -254,14 +254,16 @@ def run(ix, R):
     site = SM + '::SimpleForwardModel.nativeWavenumberGrid'
     with R.guard('4.native', 'DOM', site, 'native grid'):
         f = ix.func(site)
-        src = ' '.join(unparse(f.node).split())
-        need = ['wavenumbergrid = [cacher[gas].wavenumberGrid for gas in active_gases]',
-                'active_gases = self.chemistry.activeGases',
-                'if wn.shape[0] > current_grid.shape[0]: current_grid = wn']
-        miss = [x for x in need if x not in src]
-        R.check('4.native', 'DOM', site,
-                'the native grid is the largest wavenumber grid among the active molecules (independent of the requested grid)',
-                not miss, key='; '.join(miss), detail='missing %s' % miss, loc=f.loc())
+        from sa.helpers import need
+        need(R, '4.native', 'DOM', site,
+             'the native grid is the largest wavenumber grid among the active molecules (independent of the requested grid)', f,
+             ['V_ag = self.chemistry.activeGases', 'V_grids = [V_c[V_g].wavenumberGrid for V_g in V_ag]',
+              '''
+for V_wn in V_grids:
+    ...
+    if V_wn.shape[0] > V_cur.shape[0]:
+        V_cur = V_wn
+''', 'return V_cur'])
         ps = f.params()
         R.check('4.native.indep', 'EFF', site, 'the native grid does not depend on the requested grid',
                 ps == ['self'], key=str(ps), detail='parameters %s' % ps, loc=f.loc())
@@ -283,5 +285,6 @@ MUTANTS = [
     ('native-depends-request', SM, 'if wn.shape[0] > current_grid.shape[0]:', 'if wn.shape[0] < current_grid.shape[0]:', '4.native'),
 ]
 EQUIVALENTS = [
+    ('native-rename', SM, r're:\bcurrent_grid\b', 'best'),
     ('clip-temp', UU, "    wn_min = min_wngrid - wnwidths.max()\n    wn_max = max_wngrid + wnwidths.max()", "    widest = wnwidths.max()\n    wn_min = min_wngrid - widest\n    wn_max = widest + max_wngrid"),
 ]
